@@ -18,7 +18,7 @@ vars == <<desc, term, dense, pc>>
 N == 4
 Cls == <<"Dense", "Diag", "ConstDiag", "Identity", "Toeplitz", "Chol", "Kron", "KronDiag", "KronAddedDiag", "SumKron", "AddedDiag",
          "LRRAddedDiag", "Sum", "PsdSum", "ConstMul", "BlockDiag", "BlockInter", "BatchRepeat", "Tri", "AddedDiagI", "LRRAddedDiagI", "User",
-         "AddedDiagRootConst", "AddedDiagBig", "DenseBig", "KronCholU", "BlockDiagCholU", "CholKronTriU", "TriRepeat", "AddedDiagKBc">>
+         "AddedDiagRootConst", "AddedDiagBig", "DenseBig", "KronCholU", "BlockDiagCholU", "CholKronTriU", "TriRepeat", "AddedDiagKBc", "KronAddedKronDiag", "MixedSpectrum", "BlockInterDiag", "CholDiag">>
 \* matrix size per class: the "Big" families are large enough for CG / Lanczos to need more than 10 iterations
 NOf(c) == IF c = "AddedDiagBig" THEN 24 ELSE IF c = "DenseBig" THEN 12 ELSE 4
 Batches == << <<>>, <<2>> >>
@@ -32,7 +32,7 @@ CfgId(c) == (IF c.max_chol = 0 THEN 1 ELSE 0) + (IF c.fast_solves THEN 2 ELSE 0)
 
 \* ---- LOSelect ------------------------------------------------------------------------------------------
 SolvePath(cls, n, c) ==
-  IF cls \in {"Chol", "Tri", "CholKronTriU", "TriRepeat"} THEN "class-shortcut"
+  IF cls \in {"Chol", "Tri", "CholKronTriU", "TriRepeat", "CholDiag"} THEN "class-shortcut"
   ELSE IF ~c.fast_solves \/ n <= c.max_chol THEN "cholesky"
   ELSE IF c.precond THEN "cg+preconditioner-if-any" ELSE "cg"
 LogdetPath(cls, n, c) ==
@@ -45,8 +45,9 @@ EffCfg(cls, c0) == IF cls \in {"AddedDiagBig", "DenseBig"} /\ c0.max_chol = 800 
 Init ==
   /\ \E ci \in 1..Len(Cls), bi \in 1..Len(Batches), c0 \in Cfgs : LET c == EffCfg(Cls[ci], c0) IN
        /\ ((ci * 7 + bi + CfgId(c)) % NParts = Part)
+       /\ (Cls[ci] = "MixedSpectrum" => Batches[bi] = <<2>>)
        /\ (Tier = "quick" => ((ci + bi + CfgId(c)) % 4 = 0 \/ CfgId(c) \in {0, 63 - 32, 3 + 4}
-                              \/ (Cls[ci] \in {"AddedDiagRootConst", "AddedDiagBig", "DenseBig", "KronCholU", "BlockDiagCholU", "CholKronTriU", "AddedDiagKBc"} /\ CfgId(c) % 2 = 1 /\ ~c.memory_efficient)
+                              \/ (Cls[ci] \in {"AddedDiagRootConst", "AddedDiagBig", "DenseBig", "KronCholU", "BlockDiagCholU", "CholKronTriU", "AddedDiagKBc", "KronAddedKronDiag", "MixedSpectrum"} /\ CfgId(c) % 2 = 1 /\ ~c.memory_efficient)
                               \/ (Cls[ci] \in {"AddedDiagBig", "DenseBig"} /\ CfgId(c) \in {6, 14, 22})))
        /\ desc = [cls |-> Cls[ci], b |-> Batches[bi], cfg |-> c, cfgid |-> CfgId(c), id |-> (ci * 4 + bi) * 64 + CfgId(c),
                   dt |-> IF (ci + CfgId(c)) % 3 = 0 THEN "f32" ELSE "f64", seed |-> ci * 13 + bi * 5,
